@@ -704,14 +704,23 @@ def checked_is_cheap():
 def run(ctx):
     _lock()
     os.makedirs(C17_CACHE, exist_ok=True)
-    kind_obligations(ctx)
-    run_corpus(ctx)
-    kernel_model_cases(ctx)
-    stream(ctx, 'plain', ctx.quick, monitor=True)
+    phases = {}
+
+    def timed(name, f, *a, **k):
+        t0 = time.time()
+        r = f(*a, **k)
+        phases[name] = round(time.time() - t0, 1)
+        return r
+    phases['before_run(sync+generate+build+audit)'] = round(time.time() - ctx.t0, 1)
+    timed('kinds', kind_obligations, ctx)
+    timed('corpus', run_corpus, ctx)
+    timed('kernel_models', kernel_model_cases, ctx)
+    timed('stream_plain', stream, ctx, 'plain', ctx.quick, monitor=True)
     if (not ctx.quick) or checked_is_cheap():
-        stream(ctx, 'checked', ctx.quick, monitor=False)
+        timed('stream_checked', stream, ctx, 'checked', ctx.quick, monitor=False)
     else:
         ctx.note('bounds-checked overlay not built yet: checked stream skipped in the quick tier')
+    ctx.extra['phases_s'] = phases
 
 
 def _as_csr(g):
